@@ -58,7 +58,7 @@ def mfold (o : Op1) (P : List V) : V := (T.mf.lookup (o, T.canon P)).getD .F
 def profiles : List (List V) := sublists T.vals
 
 /-- every table is total on `vals` and closed under `vals` (so the `getD` defaults are never used) -/
-def totalB (modal quantified : Bool) : Bool :=
+def totalB (modal quantified emptyOk : Bool) : Bool :=
   [Op1.asrt, Op1.neg].all (fun o => T.vals.all fun a =>
       match T.t1.lookup (o, a) with | some r => T.vals.contains r | none => false)
   && Op2.all.all (fun o => T.vals.all fun a => T.vals.all fun b =>
@@ -66,7 +66,7 @@ def totalB (modal quantified : Bool) : Bool :=
   && (!quantified || Quant.all.all (fun q => T.profiles.all fun P =>
       P.isEmpty || match T.qf.lookup (q, P) with | some r => T.vals.contains r | none => false))
   && (!modal || [Op1.poss, Op1.nec].all (fun o => T.profiles.all fun P =>
-      match T.mf.lookup (o, P) with | some r => T.vals.contains r | none => false))
+      (P.isEmpty && !emptyOk) || match T.mf.lookup (o, P) with | some r => T.vals.contains r | none => false))
   && T.des.all T.vals.contains && T.vals.contains T.unassigned
 end Tables
 
@@ -89,7 +89,7 @@ structure RuleKey where
 inductive Tm where
   | lhs                       -- first operand; for a quantified sentence: the body instantiated with the witness constant
   | rhs                       -- second operand
-  | whole                     -- the node's whole sentence (including its negation if the key is negated)
+  | whole                     -- the compound itself: the node's sentence without the key's outer negation
   | raw                       -- the un-instantiated body of a quantified sentence (only under `bind`)
   | bind (q : Quant) (t : Tm) -- Quantified(q, v, t)  with v the node's own variable
   | op1 (o : Op1) (t : Tm)
@@ -141,6 +141,14 @@ structure LogicData where
   /-- identity / existence closure rules present (classical family) -/
   closesSelfIdNeg : Bool
   closesNonExist : Bool
+  /-- identity/existence literals that must NOT close (`a=a`, `¬a=b`, `E!a`), observed -/
+  closesOtherIdent : Bool
+  /-- trunk: marker on premises; is the conclusion negated; marker on the conclusion node -/
+  trunkPrem : Option Bool
+  trunkConcNeg : Bool
+  trunkConc : Option Bool
+  /-- frame rules present in the rule set: Reflexive / Transitive / Symmetric / Serial -/
+  frameRules : List String
   extendsL : List String
   deriving Repr, Inhabited
 
@@ -175,23 +183,22 @@ def evalPt (T : Tables) (x : Option V) (y : Option V) : Tm → Option V
   | op1 o t => if o.isModal then none else (evalPt T x y t).map (T.f1 o)
   | op2 o t u => do some (T.f2 o (← evalPt T x y t) (← evalPt T x y u))
 
-/-- value of the whole (possibly negated) operated sentence from its operand values -/
-def wholeOp (T : Tables) (sh : Shape) (neg : Bool) (a b : V) : Option V :=
-  let v := match sh with
-    | .op1 o => if o.isModal then none else some (T.f1 o a)
-    | .op2 o => some (T.f2 o a b)
-    | .quant _ => none
-  if neg then v.map (T.f1 .neg) else v
+/-- value of the compound (shape applied to the operand values), without the key's negation -/
+def wholeOp (T : Tables) (sh : Shape) (a b : V) : Option V :=
+  match sh with
+  | .op1 o => if o.isModal then none else some (T.f1 o a)
+  | .op2 o => some (T.f2 o a b)
+  | .quant _ => none
 
 /-- evaluation for an operator rule: operands have values `a`, `b` -/
-def evalOp (T : Tables) (sh : Shape) (neg : Bool) (a b : V) : Tm → Option V
+def evalOp (T : Tables) (sh : Shape) (a b : V) : Tm → Option V
   | lhs => some a
   | rhs => match sh with | .op2 _ => some b | _ => none
-  | whole => wholeOp T sh neg a b
+  | whole => wholeOp T sh a b
   | raw => none
   | bind _ _ => none
-  | op1 o t => if o.isModal then none else (evalOp T sh neg a b t).map (T.f1 o)
-  | op2 o t u => do some (T.f2 o (← evalOp T sh neg a b t) (← evalOp T sh neg a b u))
+  | op1 o t => if o.isModal then none else (evalOp T sh a b t).map (T.f1 o)
+  | op2 o t u => do some (T.f2 o (← evalOp T sh a b t) (← evalOp T sh a b u))
 
 /-- map a pointwise template over a profile -/
 def mapProfile (T : Tables) (t : Tm) (P : List V) : Option (List V) :=
@@ -199,26 +206,26 @@ def mapProfile (T : Tables) (t : Tm) (P : List V) : Option (List V) :=
 
 /-- evaluation for a quantifier rule on profile `P` (the set of values the body takes over the
     domain); `pt` is the value of the body at the witness, if the rule has one -/
-def evalQ (T : Tables) (q : Quant) (neg : Bool) (P : List V) (pt : Option V) : Tm → Option V
+def evalQ (T : Tables) (q : Quant) (P : List V) (pt : Option V) : Tm → Option V
   | lhs => pt
   | rhs => none
   | raw => none
-  | whole => let v := T.qfold q P; some (if neg then T.f1 .neg v else v)
+  | whole => some (T.qfold q P)
   | bind q' t => (mapProfile T t P).map (T.qfold q')
-  | op1 o t => if o.isModal then none else (evalQ T q neg P pt t).map (T.f1 o)
-  | op2 o t u => do some (T.f2 o (← evalQ T q neg P pt t) (← evalQ T q neg P pt u))
+  | op1 o t => if o.isModal then none else (evalQ T q P pt t).map (T.f1 o)
+  | op2 o t u => do some (T.f2 o (← evalQ T q P pt t) (← evalQ T q P pt u))
 
 /-- evaluation for a modal rule at the node's own world: a modal operator applied to a
     pointwise template folds over the profile of accessible worlds -/
-def evalMSame (T : Tables) (mo : Op1) (neg : Bool) (P : List V) : Tm → Option V
+def evalMSame (T : Tables) (mo : Op1) (P : List V) : Tm → Option V
   | lhs => none
   | rhs => none
   | raw => none
   | bind _ _ => none
-  | whole => let v := T.mfold mo P; some (if neg then T.f1 .neg v else v)
+  | whole => some (T.mfold mo P)
   | op1 o t => if o.isModal then (mapProfile T t P).map (T.mfold o)
-               else (evalMSame T mo neg P t).map (T.f1 o)
-  | op2 o t u => do some (T.f2 o (← evalMSame T mo neg P t) (← evalMSame T mo neg P u))
+               else (evalMSame T mo P t).map (T.f1 o)
+  | op2 o t u => do some (T.f2 o (← evalMSame T mo P t) (← evalMSame T mo P u))
 
 end Tm
 
@@ -229,12 +236,15 @@ def satOpt (d : Option Bool) : Option V → Bool
   | some v => L.satV d v
   | none => false
 
+def negIf (neg : Bool) (v : V) : V := if neg then L.T.f1 .neg v else v
+
 /-- is the target node itself satisfied, on operand values / on a profile -/
-def nodeSatOp (k : RuleKey) (a b : V) : Bool := L.satOpt k.des (Tm.wholeOp L.T k.shape k.negated a b)
+def nodeSatOp (k : RuleKey) (a b : V) : Bool :=
+  L.satOpt k.des ((Tm.wholeOp L.T k.shape a b).map (L.negIf k.negated))
 def nodeSatQ (q : Quant) (k : RuleKey) (P : List V) : Bool :=
-  L.satOpt k.des (Tm.evalQ L.T q k.negated P none .whole)
+  L.satV k.des (L.negIf k.negated (L.T.qfold q P))
 def nodeSatM (o : Op1) (k : RuleKey) (P : List V) : Bool :=
-  L.satOpt k.des (Tm.evalMSame L.T o k.negated P .whole)
+  L.satV k.des (L.negIf k.negated (L.T.mfold o P))
 
 def AddT.isNode : AddT → Option NodeT
   | .node n => some n | .access => none
@@ -242,7 +252,7 @@ def AddT.isNode : AddT → Option NodeT
 /-- operator rule: exact on operand values (a,b) -/
 def opBranchSat (k : RuleKey) (a b : V) (br : List AddT) : Bool :=
   br.all fun
-    | .node n => !n.other && L.satOpt n.des (Tm.evalOp L.T k.shape k.negated a b n.tm)
+    | .node n => !n.other && L.satOpt n.des (Tm.evalOp L.T k.shape a b n.tm)
     | .access => false
 
 def opRuleExactAt (k : RuleKey) (r : Rule) (a b : V) : Bool :=
@@ -251,7 +261,7 @@ def opRuleExactAt (k : RuleKey) (r : Rule) (a b : V) : Bool :=
 /-- quantifier rule branch with witness value `pt` -/
 def qBranchSat (q : Quant) (k : RuleKey) (P : List V) (pt : Option V) (br : List AddT) : Bool :=
   br.all fun
-    | .node n => !n.other && L.satOpt n.des (Tm.evalQ L.T q k.negated P pt n.tm)
+    | .node n => !n.other && L.satOpt n.des (Tm.evalQ L.T q P pt n.tm)
     | .access => false
 
 def qRuleExactAt (q : Quant) (k : RuleKey) (r : Rule) (P : List V) : Bool :=
@@ -267,7 +277,7 @@ def qRuleExactAt (q : Quant) (k : RuleKey) (r : Rule) (P : List V) : Bool :=
 /-- modal rule branch: same-world nodes on the profile, other-world nodes at the witness value -/
 def mBranchSame (o : Op1) (k : RuleKey) (P : List V) (br : List AddT) : Bool :=
   br.all fun
-    | .node n => n.other || L.satOpt n.des (Tm.evalMSame L.T o k.negated P n.tm)
+    | .node n => n.other || L.satOpt n.des (Tm.evalMSame L.T o P n.tm)
     | .access => true
 def mBranchOther (v : V) (br : List AddT) : Bool :=
   br.all fun
@@ -290,16 +300,36 @@ def mRuleExactAt (o : Op1) (k : RuleKey) (r : Rule) (P : List V) : Bool :=
   | _ => false
 
 def nonemptyProfiles : List (List V) := L.T.profiles.filter (!·.isEmpty)
+/-- can a world have no accessible world at all in this logic's frames -/
+def emptyAccessOk : Bool := match L.frame with | .none | .K => true | _ => false
+def tablesTotalB : Bool := L.tables.totalB L.modal L.quantified L.emptyAccessOk
+/-- value profiles of the accessible worlds: never empty when the frame is serial or reflexive -/
+def mProfiles : List (List V) :=
+  match L.frame with
+  | .none | .K => L.T.profiles
+  | _ => L.nonemptyProfiles
 
 /-- A rule is *exact*: on every abstract valuation the target node is satisfied iff some
     extension is (with a witness / for all points as the rule's kind says). -/
 def ruleExactB (k : RuleKey) (r : Rule) : Bool :=
   match k.shape with
   | .op1 o =>
-      if o.isModal then L.T.profiles.all (L.mRuleExactAt o k r)
+      if o.isModal then L.mProfiles.all (L.mRuleExactAt o k r)
       else r.witness == .none && L.T.vals.all fun a => L.opRuleExactAt k r a a
   | .op2 _ => r.witness == .none && L.T.vals.all fun a => L.T.vals.all fun b => L.opRuleExactAt k r a b
   | .quant q => L.nonemptyProfiles.all (L.qRuleExactAt q k r)
+
+/-- the abstract valuations on which a rule is not exact (witnesses for the failing-input search):
+    operand value pairs for operator rules, value profiles for quantifier / modal rules -/
+def ruleWitnesses (k : RuleKey) (r : Rule) : List (List V) :=
+  match k.shape with
+  | .op1 o =>
+      if o.isModal then L.mProfiles.filter (fun P => !L.mRuleExactAt o k r P)
+      else (L.T.vals.filter fun a => !L.opRuleExactAt k r a a).map fun a => [a]
+  | .op2 _ => (L.T.vals.flatMap fun a => L.T.vals.map fun b => [a, b]).filter fun
+      | [a, b] => !L.opRuleExactAt k r a b
+      | _ => false
+  | .quant q => L.nonemptyProfiles.filter (fun P => !L.qRuleExactAt q k r P)
 
 /-- the rule keys whose rule is not exact: the *bad set* of the C04 obligation -/
 def badRules : List RuleKey := (L.rules.filter fun (k, r) => !L.ruleExactB k r).map (·.1)
@@ -308,7 +338,7 @@ def badRules : List RuleKey := (L.rules.filter fun (k, r) => !L.ruleExactB k r).
 def ruleSoundB (k : RuleKey) (r : Rule) : Bool :=
   match k.shape with
   | .op1 o =>
-      if o.isModal then L.T.profiles.all fun P => !L.nodeSatM o k P ||
+      if o.isModal then L.mProfiles.all fun P => !L.nodeSatM o k P ||
         (match r.witness with
          | .none => r.branches.any (fun br => !mBranchHasOther br && L.mBranchSame o k P br)
          | .newWorld => r.branches.any (fun br =>
